@@ -2485,7 +2485,8 @@ package sarama
 //@   returns rsp, err
 //@   modifies nothing
 //@ func asyncProducer.newBrokerProducer#lit0() props C01
-//@   callsite Broker.Produce: requires[the_request_built_from_the_set] $request == request
+//@   callsite produceSet.buildRequest: requires[request_built_from_the_set_taken_from_the_bridge] $recv == set
+//@   callsite Broker.Produce: requires[sent_to_the_workers_broker] $recv == broker
 //@   callsite send.responses: requires[one_response_naming_the_set_with_the_brokers_verdict] $value != nil && $value.set == set && $value.err == err && $value.res == response
 //@   nosafety
 //@ channel brokerProducer.input m
